@@ -1248,4 +1248,68 @@ theorem skipNl_expr {tk : Tok} (h : isExprTok tk = true) (tl : List Tok) : skipN
 /-- a constraint without iteration at the end of the text -/
 theorem optFor_nil : optFor [] = .ok (([], []), []) := rfl
 
+/-- the declarations of the fragment without iterations and with plain names (used by C12) -/
+def plainName : CName → Prop
+  | .plain n => isKeyword n = false
+  | .compound _ _ => False
+
+def WFt : PVarType → Prop
+  | .boolean => True
+  | .nonNegReal none none => True
+  | .nonNegReal (some a) (some b) => WF a ∧ WF b
+  | .real none none => True
+  | .real (some a) (some b) => WF a ∧ WF b
+  | .intRange a b => WF a ∧ WF b
+  | _ => False
+
+def WFd (d : PDomain) : Prop :=
+  d.vars ≠ [] ∧ (∀ v ∈ d.vars, plainName v) ∧ WFt d.ty ∧ d.iterVars = [] ∧ d.iters = []
+
+theorem wfd_wfdx {d : PDomain} (h : WFd d) (hnf : NotForHead (domainToks d)) : WFdx d := by
+  obtain ⟨hne, hp, ht, hiv, hit⟩ := h
+  refine ⟨hne, ?_, ?_, Or.inl ⟨hiv, hit⟩, hnf⟩
+  · intro v hv
+    have := hp v hv
+    cases v with
+    | plain n => exact this
+    | compound _ _ => exact absurd this (by simp [plainName])
+  · match hty : d.ty, ht with
+    | .boolean, _ => trivial
+    | .nonNegReal none none, _ => trivial
+    | .real none none, _ => trivial
+    | .nonNegReal (some a) (some b), ⟨ha, hb⟩ => exact ⟨wf_wfx a ha, wf_wfx b hb⟩
+    | .real (some a) (some b), ⟨ha, hb⟩ => exact ⟨wf_wfx a ha, wf_wfx b hb⟩
+    | .intRange a b, ⟨ha, hb⟩ => exact ⟨wf_wfx a ha, wf_wfx b hb⟩
+
+/-- the AST builders on a raw program whose parts they accept -/
+theorem buildProgram_ok {raw : RawProgram} {kind : ObjKind} {obj : PExp} {ds : List PDomain}
+    (ho : buildObjective raw.objective = .ok (kind, obj))
+    (hc : ∀ c ∈ raw.constraints, c.buildErr = none) (hk : ∀ k ∈ raw.constants, buildErr k.2 = none)
+    (hd : buildDomains raw.domains = .ok ds) :
+    buildProgram raw = .ok { objKind := kind, objective := obj, constraints := raw.constraints, constants := raw.constants, domains := ds } := by
+  have h1 : firstErr (raw.constraints.map PConstraint.buildErr) = none := by
+    apply firstErr_none
+    intro x hx
+    simp only [List.mem_map] at hx
+    obtain ⟨c, hc', rfl⟩ := hx
+    exact hc c hc'
+  have h2 : firstErr (raw.constants.map fun k => buildErr k.2) = none := by
+    apply firstErr_none
+    intro x hx
+    simp only [List.mem_map] at hx
+    obtain ⟨k, hk', rfl⟩ := hx
+    exact hk k hk'
+  simp [buildProgram, ho, h1, h2, hd]
+
+/-- a rendering whose leftmost leaf is not written with a word that reads `for` does not begin with one -/
+theorem notForHead_tk {t : PExp} {ts : List Tok} {items : List Item} (hk : Tk t ts items)
+    (h : ∀ w, headName t = some w → lowerWord w ≠ "for") (X : List Tok) : NotForHead (ts ++ X) := by
+  obtain ⟨tk, tl, hts, _⟩ := tk_head hk
+  intro w r e
+  rw [hts] at e
+  simp only [List.cons_append] at e
+  injection e with e1 _
+  subst e1
+  exact h w (tk_head_word hk w tl hts)
+
 end Rooc.Syntax.Proofs
